@@ -180,6 +180,28 @@ ROWS = [
 MAXLEN = 2047
 
 
+def _pure_frame_predicate(m, g):
+    """the condition reads nothing but the reader's current frame object (through its properties / len) and constants"""
+    frame0 = m.f0(m.roles.frame)
+    seen_frame = [False]
+
+    def ok(sv, under_frame=False):
+        if not isinstance(sv, tuple) or not sv:
+            return True
+        if sv == frame0:
+            seen_frame[0] = True
+            return True
+        t = sv[0]
+        if t == "c":
+            return True
+        if t in ("g", "l", "p", "havoc", "new", "iter"):
+            return False
+        if t == "f0":
+            return sv[1] != ("self0",) and ok(sv[1]) if sv != frame0 else True
+        return all(ok(x) for x in sv[1:] if isinstance(x, tuple))
+    return ok(g) and seen_frame[0]
+
+
 @_memo_on_model
 def conformance(m: HdlcModel):
     res = []
@@ -194,7 +216,10 @@ def conformance(m: HdlcModel):
             if why:
                 n_bad += 1
                 unk = f" (under unrecognised condition(s) {[t for t, _, _ in sp.unknown]}, treated as free)" if sp.unknown else ""
-                res.append(Result("bad", "row:" + rid, rid, f"{desc}: {why}{unk}", loc(m, sp), witness=f"[{sp.guard_text()}] => {sp.post.brief()}"))
+                # an unrecognised condition that only looks at the current frame (its header, its length) may be another spelling of one of the frame literals
+                # the row is defined by (header check sequence available, expected length, ...): whether this path belongs to the row is then not known
+                frame_pred = bool(sp.unknown) and all(_pure_frame_predicate(m, g_) for _, _, g_ in sp.unknown)
+                res.append(Result("und" if frame_pred else "bad", "row:" + rid, rid, f"{desc}: {why}{unk}", loc(m, sp), witness=f"[{sp.guard_text()}] => {sp.post.brief()}"))
         if not n_bad:
             res.append(Result("ok", "row:" + rid, rid, f"{len(ps)} path(s) of the step function conform: {desc}"))
     return res
